@@ -111,6 +111,22 @@ OrVocab(v, i, j, fi, fj, skel) ==
      /\ root' = Wrap(skel, ScalarCat[v].text \o " // {or: [" \o AltText(TypeVocab[i], fi) \o ", " \o AltText(TypeVocab[j], fj) \o "]}")
      /\ typ' = ""
 
+\* ---- additionalProperties over the whole type vocabulary (what the rule admits is not C01's business: the
+\* projects are converted and crash-tested; the own example has no additional property, so it must be accepted
+\* whenever the rule value is admitted at all)
+ApVocab(i) ==
+  /\ stage = "start" /\ fam' = "apvocab" /\ stage' = "done" /\ list' = <<>>
+  /\ LET T == IF i <= Len(TypeVocab) THEN TypeVocab[i] ELSE "mixed" IN
+     root' = "{ // {additionalProperties: \"" \o T \o "\"}\n  \"a\": 1\n}"
+  /\ typ' = "" /\ expect' = "unknown"
+
+\* ---- key shortcuts: the key of the example is the example of the key's type, whatever it is made of
+KeyStrings == <<"\"a\"", "\"a\\\"\"", "\"\\\"a\"", "\"\\\"\"", "\"a\\\\\"", "\"\\\\\"", "\"a b\"", "\"\\u0041\"", "\"a\\nb\"", "\"\"">>
+KeyShortcut(i, v) ==
+  /\ stage = "start" /\ fam' = "keyshortcut" /\ stage' = "done" /\ list' = <<>>
+  /\ root' = "{\n  @t: " \o ScalarCat[v].text \o "\n}"
+  /\ typ' = KeyStrings[i] /\ expect' = "accept"
+
 Skels == {"root", "prop", "item", "ref"}
 Next == \/ StartEnum
         \/ \E i \in 1..N : EnumAdd(i)
@@ -120,6 +136,8 @@ Next == \/ StartEnum
         \/ \E i \in 1..Len(FmtCat), s \in Skels \ {"ref"} : Format(i, s)
         \/ \E i \in 1..Len(NumCat), b \in 1..Len(NumCat), m \in 0..2 : Or2("num", i, b, m)
         \/ \E i \in 1..Len(StrCat), b \in 1..Len(NumCat), m \in 0..2 : Or2("str", i, b, m)
+        \/ \E i \in 1..(Len(TypeVocab) + 1) : ApVocab(i)
+        \/ \E i \in 1..Len(KeyStrings), v \in {1, 4, 8} : KeyShortcut(i, v)
         \/ \E v \in OrValues, i, j \in 1..Len(TypeVocab), fi, fj \in {"name", "set"}, s \in {"root", "prop"} : OrVocab(v, i, j, fi, fj, s)
 Spec == Init /\ [][Next]_vars
 
